@@ -24,6 +24,7 @@ type C03 struct {
 	User    sdk.AccAddress
 	Nonces  int
 	Chain   string
+	Leave   bool // alphabet includes a validator leaving (record removed by x/staking) and being created again
 }
 
 func NewC03(tier string) *C03 {
@@ -93,12 +94,26 @@ func (c *C03) Ops(s *HState) []engine.Op {
 			}
 		}
 	}
+	if c.Leave {
+		// validator A (index 0) leaves for good / is created again by the same operator
+		if !s.Snap.Staking[0].Removed {
+			ops = append(ops, engine.OpN("Leave", 0))
+		} else {
+			ops = append(ops, engine.OpN("Return", 0))
+		}
+	}
 	return ops
 }
 
 func (c *C03) Do(in *hub.Instance, gg Ghost, op engine.Op, st *engine.Step) {
 	g := gg.(*c03Ghost)
 	switch op.Kind {
+	case "Leave":
+		in.ValLeave(int(op.I[0]))
+		st.Obs = "left"
+	case "Return":
+		in.ValReturn(int(op.I[0]), c.Powers[op.I[0]])
+		st.Obs = "returned"
 	case "Vote":
 		v, n, va := op.I[0], op.I[1], op.I[2]
 		r := in.DeliverMsg(hub.EventMsg(c.Vals[v].Orch, c.Chain, c.event(n, va)))
